@@ -214,19 +214,20 @@ def run(ctx):
     with open(os.path.join(ctx.work, "c16_ops.jsonl"), "w") as f:
         for c in cases:
             f.write(json.dumps(c) + "\n")
-    for fn in ("c16_ops_out.jsonl", "c16_stress_out.jsonl", "c16_race_out.jsonl", "c16_witness_order.jsonl"):
+    for fn in ("c16_ops_out.jsonl", "c16_stress_out.jsonl", "c16_race_out.jsonl", "c16_witness_order.jsonl", "c16_grain_out.jsonl"):
         p = os.path.join(ctx.work, fn)
         if os.path.exists(p):
             os.remove(p)
 
     ctx.log("generated %d cases; running the Go harness" % len(cases))
-    rc, out = ctx.go_test("actor", "^TestVerifC16", ["zz_verif_C16_test.go"], timeout=1500 if ctx.thorough else 600, race=False)
+    rc, out = ctx.go_test("actor", "^TestVerifC16", ["zz_verif_C16_test.go", "zz_verif_C16b_test.go"], timeout=1500 if ctx.thorough else 600, race=False)
     outs = read_jsonl(os.path.join(ctx.work, "c16_ops_out.jsonl"))
     stress = read_jsonl(os.path.join(ctx.work, "c16_stress_out.jsonl"))
     race = read_jsonl(os.path.join(ctx.work, "c16_race_out.jsonl"))
     wit = read_jsonl(os.path.join(ctx.work, "c16_witness_order.jsonl"))
+    grain = read_jsonl(os.path.join(ctx.work, "c16_grain_out.jsonl"))
     ctx.log("harness done rc=%d" % rc)
-    harness_ok = rc == 0 and len(outs) == len(cases) and stress and race and wit
+    harness_ok = rc == 0 and len(outs) == len(cases) and stress and race and wit and grain
     if not harness_ok:
         ctx.tie_broken("go-harness actor TestVerifC16*", out[-4000:])
     if len(outs) != len(cases):
@@ -341,6 +342,10 @@ Eval vm_compute in (nth %d (trace %s (init %s) [%s]) (observe (init 0))).
             ctx.violation("stress:" + re.sub(r"[^a-z]+", "-", m.split(":", 1)[-1].lower())[:48].strip("-"),
                           "C16 under real goroutines: " + m, {"driver": "TestVerifC16Stress", "round": si, "seed": ctx.seed, "stats": {k: v for k, v in s.items() if k != "Violations"}})
             break
+    for gi, s in enumerate(grain):
+        for m in (s.get("Violations") or [])[:2]:
+            ctx.violation("grain:" + re.sub(r"[^a-z]+", "-", m.split(":", 1)[-1].lower())[:48].strip("-"),
+                          "C16 grain variant under real goroutines: " + m, {"driver": "TestVerifC16Grain", "seed": ctx.seed, "stats": {k: v for k, v in s.items() if k != "Violations"}})
     for r in race:
         for m in (r.get("Violations") or [])[:1]:
             ctx.violation("register-race:limit", "concurrent registerRequestState: " + m, {"driver": "TestVerifC16RegisterRace", "detail": r})
@@ -371,7 +376,7 @@ Eval vm_compute in (nth %d (trace %s (init %s) [%s]) (observe (init 0))).
             if isinstance(v, int):
                 st_tot[k] = st_tot.get(k, 0) + v
     ctx.coverage.update({
-        "evaluations": steps + st_tot.get("Requests", 0) + sum(r.get("Rounds", 0) for r in race),
+        "evaluations": steps + st_tot.get("Requests", 0) + sum(g_.get("Requests", 0) for g_ in grain) + sum(r.get("Rounds", 0) for r in race),
         "distinct_nontrivial": len(nontrivial),
         "rule": "op sequences (corpus witnesses + 4 seeded profiles: steady, races with emulated preemption inside completeRequest, shutdown/restart, limit); "
                 "non-trivial = at least 2 requests issued, at least one message held in the stash and at least one request completed; distinct by (limit, ops)",
@@ -379,7 +384,7 @@ Eval vm_compute in (nth %d (trace %s (init %s) [%s]) (observe (init 0))).
         "op_histogram": hist, "model_mismatching_cases": len(mismatches) if verdicts else None,
         "model_tainted_cases": sum(1 for v in (verdicts or []) if v[1] >= 0), "model_overtaken_cases": sum(1 for v in (verdicts or []) if v[2] == 1),
         "oracle_complaint_kinds": kinds, "known_finding_hits": known_seen, "cancel_in_flight_policy": policy,
-        "stress_totals": st_tot, "register_race": [{k: v for k, v in r.items() if k != "Violations"} for r in race],
+        "stress_totals": st_tot, "grain_totals": [{k: v for k, v in g_.items() if k != "Violations"} for g_ in grain], "register_race": [{k: v for k, v in r.items() if k != "Violations"} for r in race],
         "samples": [{"ops": pretty_ops(cases[i]["Ops"])[:14], "max": cases[i]["Max"]} for i in (0, 1, n_corpus, min(len(cases) - 1, n_corpus + 1))],
         "theorems": THEOREMS,
     })
